@@ -54,27 +54,77 @@ func rulesC04(w *World, r *Report) {
 		if isFailureReturn(rt) {
 			continue
 		}
-		al, ok := rt.Results[0].(*ssa.Alloc)
-		if !ok {
-			continue
-		}
 		sh := shaped{ret: rt, fields: map[string]ssa.Value{}}
-		for _, ref := range *al.Referrers() {
-			fa, ok := ref.(*ssa.FieldAddr)
+		litFields := func(al *ssa.Alloc) map[string]ssa.Value {
+			m := map[string]ssa.Value{}
+			for _, ref := range *al.Referrers() {
+				fa, ok := ref.(*ssa.FieldAddr)
+				if !ok {
+					continue
+				}
+				_, fname, _ := fieldAddrOf(fa)
+				for _, r2 := range *fa.Referrers() {
+					if st, ok := r2.(*ssa.Store); ok {
+						m[fname] = st.Val
+					}
+				}
+			}
+			return m
+		}
+		switch x := rt.Results[0].(type) {
+		case *ssa.Alloc:
+			sh.fields = litFields(x)
+		case *ssa.Call:
+			// a constructor of the module that only stores its parameters into the fields of a fresh struct
+			sc := x.Common().StaticCallee()
+			if sc == nil || !w.inModule(sc) || len(sc.Blocks) != 1 {
+				continue
+			}
+			rets := returnsOf(sc)
+			if len(rets) != 1 {
+				continue
+			}
+			al, ok := rets[0].Results[0].(*ssa.Alloc)
 			if !ok {
 				continue
 			}
-			_, fname, _ := fieldAddrOf(fa)
-			for _, r2 := range *fa.Referrers() {
-				if st, ok := r2.(*ssa.Store); ok {
-					sh.fields[fname] = st.Val
+			okCtor := true
+			for fname, v := range litFields(al) {
+				pi := -1
+				for i, p := range sc.Params {
+					if ssa.Value(p) == v {
+						pi = i
+					}
 				}
+				if pi < 0 || pi >= len(x.Common().Args) {
+					okCtor = false
+					break
+				}
+				sh.fields[fname] = x.Common().Args[pi]
 			}
+			if !okCtor || len(sh.fields) == 0 {
+				continue
+			}
+		default:
+			continue
 		}
 		shapes = append(shapes, sh)
 	}
-	if len(shapes) < 2 {
-		r.Undecided("C04.R1", "FetchFromArchive:returns", w.pos(f.Pos()), fmt.Sprintf("expected the written and the never-written return of a series, found %d", len(shapes)))
+	if len(shapes) == 0 {
+		r.Undecided("C04.R1", "FetchFromArchive:returns", w.pos(f.Pos()), "no return of a series built in FetchFromArchive found")
+	}
+	if len(shapes) == 1 {
+		// one return serves the written and the never-written archive: bounds and step are the same values by construction
+		for _, fld := range []string{"fromTime", "untilTime", "step"} {
+			key := "FetchFromArchive:shape:" + fld
+			if shapes[0].fields[fld] == nil {
+				r.Undecided("C04.R1", key, w.instrPos(shapes[0].ret), "field "+fld+" is not set on the series-returning path")
+			} else if _, isPhi := shapes[0].fields[fld].(*ssa.Phi); isPhi && mentionsHigh(newExprCtx(w).expr(shapes[0].fields[fld])) {
+				r.Violate("C04.R1", key, w.instrPos(shapes[0].ret), "the series' "+fld+" is chosen depending on file content: "+newExprCtx(w).expr(shapes[0].fields[fld]))
+			} else {
+				r.OK("C04.R1", key, w.instrPos(shapes[0].ret), "a single return carries the same value for written and never-written archives")
+			}
+		}
 	}
 	for i := 0; i < len(shapes); i++ {
 		for j := i + 1; j < len(shapes); j++ {
@@ -108,11 +158,21 @@ func rulesC04(w *World, r *Report) {
 		}
 	}
 	// count: make((until-from)/step) on one side, Values() of fetchRawPoints(id, from, until) on the other
-	if len(shapes) == 2 {
+	if len(shapes) == 2 || len(shapes) == 1 {
 		okCount := false
 		detail := ""
+		type shv struct {
+			sh shaped
+			v  ssa.Value
+		}
+		var cands []shv
 		for _, sh := range shapes {
-			v := sh.fields["values"]
+			for _, v := range leavesOf(sh.fields["values"]) {
+				cands = append(cands, shv{sh, v})
+			}
+		}
+		for _, cand := range cands {
+			sh, v := cand.sh, cand.v
 			if ms, ok := v.(*ssa.MakeSlice); ok {
 				e := newExprCtx(w)
 				want := "((" + e.expr(sh.fields["untilTime"]) + " -:uint32 " + e.expr(sh.fields["fromTime"]) + ") /:uint32 " + e.expr(sh.fields["step"]) + ")"
@@ -293,7 +353,7 @@ func rulesC04(w *World, r *Report) {
 			}
 			if plain != nil && ext != nil {
 				ec := ext.(*ssa.Call)
-				if ec.Common().Args[0] == plain && sameValue(ec.Common().Args[1], sh.fields["step"]) {
+				if ec.Common().Args[0] == plain && (sameValue(ec.Common().Args[1], sh.fields["step"]) || newExprCtx(w).expr(ec.Common().Args[1]) == newExprCtx(w).expr(sh.fields["step"])) {
 					// guarded by fromInterval == untilInterval
 					for _, gb := range f.Blocks {
 						if len(gb.Instrs) == 0 {
